@@ -16,9 +16,10 @@
 //! carries all four symbolic fields. Each setter is applied under a symbolic flag; when the
 //! flag is false the field must have its constructor default, 0.
 //!
-//! Bounds (all harnesses here): dst in 0..=15, src in 0..=15 (the builder accepts any u8 and
-//! packs `src << 4 | dst` into one byte, so only 4-bit register numbers are meaningful),
-//! off: all i16, imm: all i32, all enum members.
+//! Bounds (all harnesses here): none. dst: all u8, src: all u8 (the builder accepts any u8 as
+//! register number, so "every instruction it can build" includes numbers above 15; builder
+//! and encoder must then still agree on the packed `src << 4 | dst` byte; the 4-bit numbers
+//! 0..=15 of the property text are a subset), off: all i16, imm: all i32, all enum members.
 
 use rbpf::ebpf::{self, Insn};
 use rbpf::insn_builder::{Arch, BpfCode, Cond, Endian, Instruction, IntoBytes, MemSize, Source};
@@ -39,8 +40,6 @@ impl Fields {
     fn any() -> Fields {
         let dst: u8 = kani::any();
         let src: u8 = kani::any();
-        kani::assume(dst < 16);
-        kani::assume(src < 16);
         Fields {
             set_dst: kani::any(),
             set_src: kani::any(),
@@ -216,6 +215,7 @@ fn c17_builder_alu() {
     kani::cover!(op == 0 && !is_reg && !is64 && f.all_set());
     kani::cover!(op == 11 && is_reg && is64 && f.all_set() && f.src == 15 && f.imm < 0);
     kani::cover!(op == 3 && !f.set_dst && !f.set_src && !f.set_off && !f.set_imm);
+    kani::cover!(f.set_dst && f.set_src && f.dst == 0x1f && f.src == 0xff);
 }
 
 /// `negate` x Arch.
